@@ -39,6 +39,8 @@ type Solver struct {
 	cmd     *exec.Cmd
 	in      io.WriteCloser
 	out     *bufio.Reader
+	lines   chan string
+	Dead    bool
 	depth   int
 	defined map[*term.Term]int // term -> frame depth where defined
 	frames  [][]*term.Term     // per frame: terms defined there
@@ -78,6 +80,19 @@ func New(kind string, timeoutMs int) (*Solver, error) {
 	}
 	s := &Solver{Name: kind, kind: kind, cmd: cmd, in: in, out: bufio.NewReaderSize(outp, 1<<16),
 		defined: map[*term.Term]int{}, frames: [][]*term.Term{nil}, timeout: timeoutMs}
+	s.lines = make(chan string, 1024)
+	go func() {
+		for {
+			line, err := s.out.ReadString('\n')
+			if line != "" {
+				s.lines <- line
+			}
+			if err != nil {
+				close(s.lines)
+				return
+			}
+		}
+	}()
 	if strings.HasPrefix(kind, "z3") {
 		s.send(fmt.Sprintf("(set-option :timeout %d)", timeoutMs))
 		s.send("(set-option :produce-models true)")
@@ -103,6 +118,9 @@ func (s *Solver) Close() {
 }
 
 func (s *Solver) send(line string) {
+	if s.Dead {
+		return
+	}
 	if s.Log != nil {
 		fmt.Fprintln(s.Log, line)
 	}
@@ -208,8 +226,30 @@ func (s *Solver) Assert(t *term.Term) {
 	s.send("(assert " + r + ")")
 }
 
+// readRaw returns the next output line, killing the solver if it does not
+// answer within the query timeout plus a grace period.
+func (s *Solver) readRaw() (string, error) {
+	if s.Dead {
+		return "", fmt.Errorf("solver is dead")
+	}
+	select {
+	case line, ok := <-s.lines:
+		if !ok {
+			s.Dead = true
+			return "", fmt.Errorf("solver exited")
+		}
+		return line, nil
+	case <-time.After(time.Duration(s.timeout)*time.Millisecond + 5*time.Second):
+		s.Dead = true
+		if s.cmd != nil && s.cmd.Process != nil {
+			s.cmd.Process.Kill()
+		}
+		return "", fmt.Errorf("solver did not answer within its time limit; killed")
+	}
+}
+
 func (s *Solver) readLine() (string, error) {
-	line, err := s.out.ReadString('\n')
+	line, err := s.readRaw()
 	return strings.TrimSpace(line), err
 }
 
@@ -325,7 +365,7 @@ func (s *Solver) readSexp() (string, error) {
 	depth := 0
 	started := false
 	for {
-		line, err := s.out.ReadString('\n')
+		line, err := s.readRaw()
 		if err != nil {
 			return sb.String(), err
 		}
